@@ -326,3 +326,13 @@ def run(ck, prog):
 
 EXPLANATION += (" Gaussian NB (E4): no mean/variance/feature-derived quantity is compared with, or floored at (max/min), a non-zero "
                 "absolute constant - a variance floor makes predict disagree with the reported statistics for small-scale data.")
+
+
+# ------------------------------------------------------------------ generic: signed counters are not cast to unsigned on their negative side
+_run_pre_negcast = run
+
+
+def run(ck, prog):
+    _run_pre_negcast(ck, prog)
+    from sa import negcast
+    negcast.run_rule(ck, prog, set(DIMENSION_FILES))
